@@ -683,6 +683,9 @@ impl Property for C06 {
          with the conformance oracle on every Ok; and the datum inside a container file read by one long-lived Reader (both \
          iterators): a first block of 1-4 copies, then a block that declares more objects than it holds (k complete copies plus a \
          strict prefix of another; null codec and one seeded compressing codec) - the missing object must be an error, never a value. \
+         Also: schemas that annotate a fixed as uuid / duration written without the annotation and read back with the annotated \
+         schema as reader schema; a struct with a [i32; 2] field read through serde::array from arrays of other lengths. A third of \
+         the pairs are encoded with arrays/maps split over several blocks; corpus values also go through SpecificDatumReader. \
          One evaluation = one decode call or one container read. distinct_nontrivial counts distinct (schema node \
          kind at the fault position, decoder, fault kind, chunk policy) tuples."
             .into()
@@ -706,7 +709,7 @@ impl Property for C06 {
         }
     }
     fn required_probes(&self) -> Vec<&'static str> {
-        vec!["probe.eof_in_boolean", "probe.eof_in_string", "probe.eof_in_union", "probe.eof_in_uuid", "probe.damaged_bytes_decoded_ok", "probe.container_block_declares_more_than_it_holds"]
+        vec!["probe.eof_in_boolean", "probe.eof_in_string", "probe.eof_in_union", "probe.eof_in_uuid", "probe.damaged_bytes_decoded_ok", "probe.container_block_declares_more_than_it_holds", "probe.container_read_with_annotated_reader_schema", "probe.fixed_size_array_field_with_other_item_count"]
     }
 
     fn generate(&self, rng: &mut Rng, _run: u64, _tier: Tier) -> Option<Case> {
